@@ -70,7 +70,7 @@ def _unrepaired_model_agrees(lines, answers):
         f = ln.split('\t')
         if len(f) >= 3 and f[1] == 'set_max_nodes':
             (capped.discard if f[2] == 'max' else capped.add)(f[0])
-        if len(f) >= 2 and f[0] in capped and f[1] in ('foa', 'ite', 'var', 'apply'):
+        if len(f) >= 2 and f[0] in capped and f[1] in ('foa', 'ite', 'var', 'apply', 'quantify', 'cofactor', 'let_b', 'compose', 'let_r', 'rename', 'let_n', 'cube', 'add_expr'):
             f[1] += '_old'
         out_lines.append('\t'.join(f))
     try:
@@ -114,9 +114,19 @@ class _Scn:
             return ('foa', i, v if rng.random() < 0.5 else -v, w if rng.random() < 0.7 else -w)
         g, u, v = self.pick(), self.pick(), self.pick()
         k = rng.random()
-        if r < 0.55:
-            # `apply`: every connective, the ternary `ite`, negation (one `self.ite` each)
-            op = rng.choice(APPLY2 + ['ite', 'ite', 'not', '~'])
+        if r < 0.35:
+            # `cofactor` / `let` with Boolean values (the model with capacity: `cofactorCapL`)
+            q = rng.sample(self.names, rng.randint(1, min(3, len(self.names))))
+            return (rng.choice(['cofactor', 'let_b']), u,
+                    ','.join(f'n:{x}={rng.choice([0, 1])}' for x in q))
+        if r < 0.4:
+            # `quantify` over names (the model with capacity: `quantifyCapL`)
+            q = rng.sample(self.names, rng.randint(1, min(3, len(self.names))))
+            return ('quantify', u, ','.join('n:' + x for x in q), rng.choice([0, 1]))
+        if r < 0.6:
+            # `apply`: every connective, the ternary `ite`, negation (one `self.ite` each), and the
+            # quantifier aliases (`quantify` over the support of the first operand)
+            op = rng.choice(APPLY2 + ['ite', 'ite', 'not', '~'] + QUANT)
             if op == 'ite':
                 return ('apply', op, g, u, v)
             if op in ('not', '~'):
@@ -127,6 +137,19 @@ class _Scn:
         if k < 0.5:
             return ('ite', g, -u, u)          # xor
         return ('ite', g, u, v)
+
+    def quant_call(self):
+        rng = self.rng
+        u, v = self.pick(), self.pick()
+        k = rng.random()
+        if k < 0.3:
+            q = rng.sample(self.names, rng.randint(1, min(3, len(self.names))))
+            return (rng.choice(['cofactor', 'let_b']), u,
+                    ','.join(f'n:{x}={rng.choice([0, 1])}' for x in q))
+        if k < 0.65:
+            return ('apply', rng.choice(QUANT), u, v)
+        q = rng.sample(self.names, rng.randint(1, min(3, len(self.names))))
+        return ('quantify', u, ','.join('n:' + x for x in q), rng.choice([0, 1]))
 
     def call(self, c):
         a = self.s.op(0, *c)
@@ -175,8 +198,9 @@ def scenario(ctx, wide=False):
             k = rng.choice([0, 1, 2, len(b)])
         s.op(0, 'set_max_nodes', k)
         refused = None
+        focus_q = rng.random() < 0.35      # insist on `quantify` / the quantifier aliases
         for _ in range(25):
-            c = h.random_call()
+            c = h.quant_call() if focus_q else h.random_call()
             before = s.state(0)
             held_tt = {u: TT(b, h.names).of(u) for u, n in h.ledger.items() if n > 0}
             last_len, old_succ = b._last_len, dict(b._succ)
@@ -511,6 +535,7 @@ def op_scenario(ctx, k):
     s, b = h.s, h.b
     from funcs import Space
     sp = Space(h.names)
+    pre_unmodelled = False
     try:
         for v in h.names:
             a = h.call(('var', v))
@@ -539,6 +564,7 @@ def op_scenario(ctx, k):
         # most scenarios insist on ONE kind of call until it is refused (else the calls that always
         # need a node — `cube`, `var` — would take every refusal)
         focus = OP_KINDS[k % len(OP_KINDS)] if rng.random() < 0.8 else None
+        unmodelled = pre_unmodelled
         for _ in range(20):
             tt = TT(b, h.names)
             if target is not None:
@@ -602,6 +628,13 @@ def op_scenario(ctx, k):
                 ctx.violation('manager damaged after going on from a full manager', dict(
                     lines=list(s.lines), problems=bad[:5], tags=dict(call='full:after')))
         ctx.case(('cap-op', len(h.names), refused and refused[0][0], len(s.lines)))
+        if not unmodelled:
+            # every call of this scenario has a twin with capacity: replay it on `ddvcap` too
+            s.state(0)
+            if target is not None:
+                s.state(1)
+            ctx.add_session(s, SECTIONS_L3, 'C17 capacity (operations)')
+            ctx.count('cap-op:replayed-on-model')
     finally:
         s.close()
 
